@@ -350,4 +350,7 @@ def run(ck, tier):
     ck.guard(r12_same_fate_after_a_framer_fault, ck, cx)
     from .. import options as _opt
     ck.guard(_opt.rule_options_read_at_construction, ck, cx, 'R13', ('pymodbus.server.sync', 'pymodbus.server.async_io', 'pymodbus.server.asynchronous'), ('IgnoreMissingSlaves', 'broadcast_enable'), 'this front-end runs with the import-time policy while its siblings read the configured one: the same requests are answered differently')
+    from ..share import import_findings as _imp17
+    ck.rule('R14', 'the unit list a front-end hands to its framer is its own: slaves() returns a fresh list of the hosted units on every call, so the `append(0)` of a broadcast-enabled listener does not change what the other listeners on that context admit (shared with C10 R11)')
+    _imp17(ck, 'C10', 'R14', ('R11',), 'listeners that share one context stop filtering alike: after broadcast traffic on one of them the others answer requests for units nobody hosts')
     return cx.idx
